@@ -95,7 +95,15 @@ func (p Plugin) CalculateRealloc(ctx context.Context, nodename string, resource 
 	var numaNodeID string
 	var numaMemory cpumemtypes.NUMAMemory
 
-	if req.CPUBind {
+	if req.CPUBind && len(originResource.CPUMap) > 0 && newReq.CPURequest == originResource.CPURequest && p.fitsInPlace(nodeResourceInfo, originResource, newReq) {
+		// no cpu change: the workload stays on exactly the cores (and the numa node) it already has,
+		// re-planning could only move it
+		cpuMap = originResource.CPUMap
+		numaNodeID = originResource.NUMANode
+		if len(numaNodeID) > 0 {
+			numaMemory = cpumemtypes.NUMAMemory{numaNodeID: newReq.MemRequest}
+		}
+	} else if req.CPUBind {
 		cpuPlans := schedule.GetCPUPlans(nodeResourceInfo, originResource.CPUMap, p.config.Scheduler.ShareBase, p.config.Scheduler.MaxShare, newReq)
 		if len(cpuPlans) == 0 {
 			return nil, coretypes.ErrInsufficientResource
@@ -137,6 +145,24 @@ func (p Plugin) CalculateRealloc(ctx context.Context, nodename string, resource 
 		"delta_resource":    deltaWorkloadResource,
 		"workload_resource": newResource,
 	}, resp)
+}
+
+// fitsInPlace tells whether the new request fits where the workload already is:
+// its cores are free again (the origin was put back) and the memory, node wide and on its numa node, is enough
+func (p Plugin) fitsInPlace(nodeResourceInfo *cpumemtypes.NodeResourceInfo, origin *cpumemtypes.WorkloadResource, newReq *cpumemtypes.WorkloadResourceRequest) bool {
+	available := nodeResourceInfo.GetAvailableResource()
+	for cpu, pieces := range origin.CPUMap {
+		if available.CPUMap[cpu] < pieces {
+			return false
+		}
+	}
+	if newReq.MemRequest > 0 && available.Memory < newReq.MemRequest {
+		return false
+	}
+	if len(origin.NUMANode) > 0 && newReq.MemRequest > 0 && available.NUMAMemory[origin.NUMANode] < newReq.MemRequest {
+		return false
+	}
+	return true
 }
 
 // CalculateRemap .
